@@ -93,6 +93,84 @@ def digi_post(chk: core.Check):
                 return
 
 
+def cgem_cluster_layouts(chk: core.Check, n_cases: int):
+    """Bes3CgemClusterColFactory (streamer-less class, layout detected from the data) through the real factory chain on synthetic
+    streams: every partition of the events into baskets - incl. baskets in which no event holds a cluster - must give the slice of
+    the one-basket read (same fields, same values)."""
+    import random
+    import struct
+    import awkward as ak
+    import uproot_custom.cpp
+    import pybes3.besio.root_io as rio
+    from lib import rootstream as rs
+    rng = random.Random(f"C02-cgem-{chk.seed}")
+    fac = rio.Bes3CgemClusterColFactory(name="m_recCgemClusterCol")
+    it, br = make_interp("/Event:TRecEvent/m_recCgemClusterCol")
+
+    def enc_event(c, version):
+        objs = []
+        for _ in range(c):
+            ints = [rng.getrandbits(31) for _ in range(5)]
+            dbl = [struct.unpack(">Q", struct.pack(">d", rng.uniform(-50, 50)))[0] for _ in range(5 if version == 0 else 4)]
+            tail = [rng.getrandbits(31) for _ in range(6)]
+            body = rs.be(2, 1) + rs.enc_tobject(1, 0, 0x03000000) + b"".join(rs.be(4, v) for v in ints) + b"".join(rs.be(8, v) for v in dbl) + b"".join(rs.be(4, v) for v in tail)
+            objs.append(rs.be(4, len(body) | rs.K_BYTE_COUNT_MASK) + body)
+        return rs.enc_obj_hdr(rng.getrandbits(16), class_name=b"TObjArray") + rs.enc_tobjarray(objs, rng, class_name=b"TRecCgemCluster")
+
+    def decode(entries):
+        data = np.frombuffer(b"".join(entries), dtype=np.uint8)
+        offs = np.concatenate([[0], np.cumsum([len(e) for e in entries])]).astype(np.uint32)
+        return ak.Array(fac.make_awkward_content(uproot_custom.cpp.read_data(data, offs, fac.build_cpp_reader())))
+
+    for case in range(n_cases):
+        version = rng.choice([0, 1])
+        n_ev = rng.choice([2, 3, 4, 6])
+        counts = [rng.choice([0, 0, 1, 2, 9]) for _ in range(n_ev)]
+        if sum(counts) == 0:
+            counts[rng.randrange(n_ev)] = 2
+        if case % 3 == 0:                                   # a run of events without clusters that can fill a basket of its own
+            k = rng.randrange(n_ev); counts[k] = 0
+        entries = [enc_event(c, version) for c in counts]
+        full = decode(entries)
+        cuts = sorted(rng.sample(range(1, n_ev), rng.randint(1, n_ev - 1)))
+        bounds = [0, *cuts, n_ev]
+        pieces = {i: decode(entries[bounds[i]:bounds[i + 1]]) for i in range(len(bounds) - 1)}
+        empty_baskets = [i for i in pieces if sum(counts[bounds[i]:bounds[i + 1]]) == 0]
+        a = rng.randrange(0, n_ev); b = rng.randrange(a + 1, n_ev + 1)
+        ov = [i for i in pieces if bounds[i] < b and bounds[i + 1] > a]
+        keys = list(range(min(ov), max(ov) + 1))
+        rng.shuffle(keys)
+        chk.count(1, key=f"cgem-layout-{version}-{counts}-{bounds}-{a}-{b}")
+        chk.hist("cgem_cluster_layouts", f"v{version}-{'with' if any(k in empty_baskets for k in keys) else 'no'}-clusterless-basket")
+        try:
+            got = it.final_array({k: pieces[k] for k in keys}, a, b, bounds, None, br, {})
+            ok = list(got.fields) == list(full.fields) and str(got.type).split(" * ", 1)[1] == str(full.type).split(" * ", 1)[1] and same_nested(got.tolist(), full[a:b].tolist())
+            obs = {"fields": list(got.fields), "type": str(got.type)[:400]}
+        except Exception as ex:
+            ok, obs = False, f"{type(ex).__name__}: {ex}"
+        if not ok:
+            delivered_clusterless = [k for k in keys if k in empty_baskets]
+            delivered_with = [k for k in keys if k not in empty_baskets]
+            # the recorded finding: class version 0 (object size 96, with m_recPositionY), at least one delivered basket without any
+            # cluster next to one with clusters - the clusterless basket cannot know the class version and omits the member
+            fk = None
+            if version == 0 and delivered_clusterless and isinstance(obs, dict) and "m_recPositionY" in str(full.type):
+                # ... and the ONLY discrepancy is that member (missing from the clusterless part): all other members, counts and order agree
+                def strip(x):
+                    if isinstance(x, dict):
+                        return {k: strip(v) for k, v in x.items() if k != "m_recPositionY"}
+                    if isinstance(x, list):
+                        return [strip(v) for v in x]
+                    return x
+                expect_fields = [f for f in full.fields if f != "m_recPositionY"]
+                if same_nested(strip(got.tolist()), strip(full[a:b].tolist())) and [f for f in got.fields if f != "m_recPositionY"] == expect_fields:
+                    fk = {"key": "cgem-cluster-version0-clusterless-basket"}
+            chk.failing_input("Bes3CgemClusterColFactory baskets through final_array", {"class_version": version, "clusters_per_event": counts, "basket_bounds": bounds, "entry_start": a, "entry_stop": b, "delivery_order": keys},
+                              obs, {"fields": list(full.fields), "type": str(full[a:b].type)[:400]}, "the result does not depend on how the events are distributed over baskets (slice of the one-basket read: same fields, same type, same values)", finding_key=fk)
+            if fk is None:
+                return
+
+
 def collection_branches(tree):
     import pybes3.besio.root_io as rio
     out = []
@@ -229,6 +307,7 @@ def main(chk: core.Check) -> int:
         chk.obligation_broken("correspondence", "FinalArray driver", str(ex))
     try:
         digi_post(chk)
+        cgem_cluster_layouts(chk, 400 if thorough else 60)
         real_bytes(chk, thorough)
     except Exception as ex:
         import traceback
